@@ -808,3 +808,153 @@ Proof.
   exists res. unfold ext_run in *.
   apply (sched_sync ev (script_strategy sc) cfg x0 flt sch _ (init flt) (init flt) res K); [left; reflexivity | exact N].
 Qed.
+
+(* ---------------------------------------------------------------------------------------------- *)
+(* 3. which signal killed the child is irrelevant: two faults that differ only in the signal give   *)
+(*    runs that agree on everything except the number in the return code                            *)
+(* ---------------------------------------------------------------------------------------------- *)
+Definition same_moment (f1 f2 : fault) : Prop :=
+  match f1, f2 with
+  | DieAfter k1 _, DieAfter k2 _ | DieOnAnswer k1 _, DieOnAnswer k2 _ | DieWaiting k1 _, DieWaiting k2 _ => k1 = k2
+  | _, _ => f1 = f2
+  end.
+
+Definition csim (c1 c2 : cstate) : Prop :=
+  match c1, c2 with CKilled _, CKilled _ => True | _, _ => c1 = c2 end.
+Definition ssim (a b : sys) : Prop := s_par a = s_par b /\ s_c2p a = s_c2p b /\ csim (s_child a) (s_child b).
+Definition rsim (r1 r2 : result) : Prop :=
+  r1 = r2 \/ exists g1 g2 : positive, r1 = Raise (ExDeath (Zneg g1)) /\ r2 = Raise (ExDeath (Zneg g2)).
+Definition osim (a b : cstate * option jv) : Prop := csim (fst a) (fst b) /\ snd a = snd b.
+
+Lemma csim_refl c : csim c c.
+Proof. destruct c; cbn; trivial. Qed.
+
+Section Signals.
+Variables (ev : evaluator) (s : strategy) (cfg : jv) (x0 : list fl) (f1 f2 : fault).
+Hypothesis SM : same_moment f1 f2.
+
+Lemma dies_now_sim sent :
+  match dies_now f1 sent, dies_now f2 sent with
+  | Some c1, Some c2 => csim c1 c2
+  | None, None => True
+  | _, _ => False
+  end.
+Proof.
+  destruct f1 as [| k1 g1 | k1 g1 | k1 g1 | k1 c1], f2 as [| k2 g2 | k2 g2 | k2 g2 | k2 c2]; cbn in SM;
+    try discriminate SM; try exact I; cbn [dies_now]; try (subst k2; destruct (Nat.leb k1 sent); exact I).
+  inversion SM; subst. destruct (Nat.leb k2 sent); [apply csim_refl | exact I].
+Qed.
+
+Lemma dies_at_return_sim sent :
+  match dies_at_return f1 sent, dies_at_return f2 sent with
+  | Some c1, Some c2 => csim c1 c2
+  | None, None => True
+  | _, _ => False
+  end.
+Proof.
+  destruct f1 as [| k1 g1 | k1 g1 | k1 g1 | k1 c1], f2 as [| k2 g2 | k2 g2 | k2 g2 | k2 c2]; cbn in SM;
+    try discriminate SM; try exact I; cbn [dies_at_return]; try (subst k2; destruct (Nat.leb k1 sent); exact I).
+Qed.
+
+Lemma dead_waiting_sim sent :
+  match dead_waiting f1 sent, dead_waiting f2 sent with
+  | Some _, Some _ | None, None => True
+  | _, _ => False
+  end.
+Proof.
+  destruct f1 as [| k1 g1 | k1 g1 | k1 g1 | k1 c1], f2 as [| k2 g2 | k2 g2 | k2 g2 | k2 c2]; cbn in SM;
+    try discriminate SM; try exact I; cbn [dead_waiting]. subst k2. destruct (Nat.eqb k1 sent); exact I.
+Qed.
+
+Lemma child_send_sim ph req sent : osim (child_send f1 ph req sent) (child_send f2 ph req sent).
+Proof.
+  unfold child_send. pose proof (dies_now_sim sent) as D.
+  destruct (dies_now f1 sent) as [c1|], (dies_now f2 sent) as [c2|]; try contradiction; split; cbn; trivial.
+Qed.
+
+Lemma child_optimize_sim c x hist sent :
+  osim (child_optimize f1 s c x hist sent) (child_optimize f2 s c x hist sent).
+Proof.
+  unfold child_optimize. destruct (s c x hist) as [v rf rg | | m]; try apply child_send_sim.
+  pose proof (dies_at_return_sim sent) as D.
+  destruct (dies_at_return f1 sent) as [c1|], (dies_at_return f2 sent) as [c2|]; try contradiction; split; cbn; trivial.
+Qed.
+
+Lemma child_recv_sim ph req sent j : osim (child_recv f1 s ph req sent j) (child_recv f2 s ph req sent j).
+Proof.
+  unfold child_recv. destruct ph as [| c | c x h |]; destruct (dec_answer req j) as [[c' | x' | f g |]|];
+    try (split; cbn; trivial; fail); try apply child_send_sim; apply child_optimize_sim.
+Qed.
+
+Lemma iter_sim t a b : ssim a b ->
+  match iter ev s f1 cfg x0 t a, iter ev s f2 cfg x0 t b with
+  | Continue a', Continue b' => ssim a' b'
+  | Done r1 a', Done r2 b' => rsim r1 r2 /\ ssim a' b'
+  | _, _ => False
+  end.
+Proof.
+  intros (P & C & K). destruct a as [pa ca oa], b as [pb cb ob]; cbn [s_par s_c2p s_child] in *. subst pb ob.
+  unfold iter; cbn [s_child].
+  destruct ca as [ph req sent | c | g1], cb as [ph' req' sent' | c' | g2]; cbn in K; try discriminate K; try contradiction.
+  - (* both running, same child state *)
+    inversion K; subst ph' req' sent'. cbn [running]. destruct t as [rd wr].
+    set (st1 := read_part ev cfg x0 rd {| s_par := pa; s_child := CWaiting ph req sent; s_c2p := oa |}).
+    assert (R : st1 = {| s_par := s_par st1; s_child := CWaiting ph req sent; s_c2p := s_c2p st1 |}).
+    { unfold st1, read_part; cbn [s_par s_child s_c2p]. destruct (p_answer pa); [reflexivity|].
+      destruct rd; [|reflexivity]. destruct oa; reflexivity. }
+    rewrite R. clear R. generalize (s_par st1) (s_c2p st1). intros p o. clear st1.
+    unfold write_part; cbn [s_par s_child s_c2p pipe_broken].
+    destruct (p_answer p) as [a|]; [|repeat split; reflexivity].
+    destruct wr; [|repeat split; reflexivity].
+    pose proof (dead_waiting_sim sent) as D.
+    destruct (dead_waiting f1 sent) as [sg1|], (dead_waiting f2 sent) as [sg2|]; try contradiction.
+    + split; [left; reflexivity | repeat split; reflexivity].
+    + destruct (p_exn p) as [e|].
+      * split; [left; reflexivity | repeat split; reflexivity].
+      * pose proof (child_recv_sim ph req sent (enc_answer a)) as [Q1 Q2].
+        destruct (child_recv f1 s ph req sent (enc_answer a)) as [c1 o1],
+                 (child_recv f2 s ph req sent (enc_answer a)) as [c2 o2]. cbn [fst snd] in Q1, Q2. subst o2.
+        split; [reflexivity | split; [reflexivity | exact Q1]].
+  - (* both exited with the same code *)
+    inversion K; subst c'. cbn [running returncode]. destruct (Z.eqb c 0).
+    + split; [left; reflexivity | repeat split; reflexivity].
+    + split; [left; reflexivity | repeat split; reflexivity].
+  - (* both killed, by whatever signals *)
+    cbn [running returncode]. cbn [Z.eqb].
+    split; [right; exists g1, g2; split; reflexivity | repeat split; exact I].
+Qed.
+
+Lemma run_sim : forall sch a b, ssim a b ->
+  match run ev s f1 cfg x0 sch a, run ev s f2 cfg x0 sch b with
+  | Some (r1, a'), Some (r2, b') => rsim r1 r2 /\ ssim a' b'
+  | None, None => True
+  | _, _ => False
+  end.
+Proof.
+  induction sch as [|t sch IH]; intros a b S; [exact I|].
+  cbn [run]. pose proof (iter_sim t a b S) as IS.
+  destruct (iter ev s f1 cfg x0 t a) as [a' | r1 a'], (iter ev s f2 cfg x0 t b) as [b' | r2 b']; try contradiction.
+  - apply IH. exact IS.
+  - exact IS.
+Qed.
+
+Lemma init_sim : ssim (init f1) (init f2).
+Proof.
+  unfold init. pose proof (child_send_sim PConfig RConfig 0) as [Q1 Q2].
+  destruct (child_send f1 PConfig RConfig 0) as [c1 o1], (child_send f2 PConfig RConfig 0) as [c2 o2].
+  cbn [fst snd] in Q1, Q2. subst o2. split; [reflexivity | split; [reflexivity | exact Q1]].
+Qed.
+End Signals.
+
+Theorem signal_irrelevant ev s cfg x0 f1 f2 sch r1 st1 :
+  same_moment f1 f2 ->
+  ext_run ev s f1 cfg x0 sch = Some (r1, st1) ->
+  exists r2 st2, ext_run ev s f2 cfg x0 sch = Some (r2, st2) /\ rsim r1 r2 /\
+    s_par st2 = s_par st1 /\ running (s_child st2) = running (s_child st1).
+Proof.
+  intros SM H. unfold ext_run in *.
+  pose proof (run_sim ev s cfg x0 f1 f2 SM sch (init f1) (init f2) (init_sim f1 f2 SM)) as RS.
+  rewrite H in RS. destruct (run ev s f2 cfg x0 sch (init f2)) as [[r2 st2]|]; [|contradiction].
+  destruct RS as (R & P & _ & K). exists r2, st2. repeat split; [exact R | symmetry; exact P |].
+  destruct (s_child st1), (s_child st2); cbn in K; try discriminate K; try contradiction; try reflexivity.
+Qed.
